@@ -201,7 +201,27 @@ fn handle_on_connection(
     // RST trumps all other processing. Tear the connection down and
     // wake every parked task with ConnectionReset.
     if s.flags.rst {
-        abort_connection(k, fd);
+        // RFC 9293 §3.10.7.4: outside SYN-SENT a reset is only valid if
+        // its sequence number is not behind what we already received.
+        // A stale one — typically the answer of an already-closed peer
+        // to a late or duplicate segment of ours, carrying that
+        // segment's old ACK number — is ignored: it must not flush
+        // data and FIN that were delivered and are still unread.
+        let stale = k
+            .lookup(fd)
+            .ok()
+            .and_then(|st| st.tcb.as_ref())
+            .map(|t| {
+                // ... and a connection that already ended cleanly has
+                // nothing left to reset.
+                t.state == TcpState::Closed
+                    || (!matches!(t.state, TcpState::SynSent)
+                        && (s.seq.wrapping_sub(t.rcv_nxt) as i32) < 0)
+            })
+            .unwrap_or(false);
+        if !stale {
+            abort_connection(k, fd);
+        }
         return;
     }
 
@@ -809,6 +829,17 @@ enum AbortReason {
 /// Returns the post-abort error a syscall should surface, if any.
 /// `reset` wins over `timed_out` when both somehow land — RST is the
 /// stronger signal — but in practice only one ever fires per TCB.
+/// Like [`abort_error`] for the read side: a reset that arrived after
+/// the peer's FIN leaves the received stream readable (see
+/// [`abort_with`]).
+fn read_abort_error(tcb: &Tcb) -> Option<Error> {
+    if tcb.reset && tcb.peer_fin && !tcb.timed_out {
+        None
+    } else {
+        abort_error(tcb)
+    }
+}
+
 fn abort_error(tcb: &Tcb) -> Option<Error> {
     if tcb.reset {
         Some(Error::from(ErrorKind::ConnectionReset))
@@ -836,7 +867,15 @@ fn abort_with(k: &mut Kernel, fd: Fd, reason: AbortReason) {
             AbortReason::TimedOut => tcb.timed_out = true,
         }
         tcb.send_buf.clear();
-        tcb.recv_buf.clear();
+        // A reset that follows the peer's FIN cannot take back what the
+        // peer sent: its byte stream is complete and was acknowledged.
+        // (The usual sender is a peer that closed normally, forgot the
+        // connection — there is no TIME-WAIT — and answers a late or
+        // retransmitted segment of ours.) Reads drain what is buffered
+        // and then see EOF; only the write side reports the reset.
+        if !(matches!(reason, AbortReason::Reset) && tcb.peer_fin) {
+            tcb.recv_buf.clear();
+        }
     }
     if let Some(w) = st.connect_waker.take() {
         w.wake();
@@ -1073,7 +1112,7 @@ pub(super) fn poll_recv(
             Some(t) => (
                 t.recv_buf.is_empty(),
                 t.peer_fin,
-                abort_error(t),
+                read_abort_error(t),
                 matches!(
                     t.state,
                     TcpState::Established
@@ -1163,7 +1202,7 @@ pub(super) fn poll_peek(
     let Some(tcb) = st.tcb.as_ref() else {
         return Poll::Ready(Err(Error::from(ErrorKind::NotConnected)));
     };
-    if let Some(e) = abort_error(tcb) {
+    if let Some(e) = read_abort_error(tcb) {
         return Poll::Ready(Err(e));
     }
     if tcb.recv_buf.is_empty() {
